@@ -685,4 +685,392 @@ example : renderSegs [.attr "a", .item "k\"q", .attr "b"] = "a[\"k\\\"q\"].b".to
 example : CanonSegs [.attr "a", .item "k.j", .attr "b1"] :=
   ⟨⟨by decide, by decide⟩, ⟨by decide, by decide⟩, trivial⟩
 
+/-! ## generated helpers on the alias attribute: with_/update_/transform_/reset_<alias>
+
+`XOp` = the operations above plus the helper calls (`HOp`); `xstep`/`xrun` are what the driver
+evaluates. A helper computes a value (reading the alias for `update_`/`transform_`) and then
+assigns it to the alias attribute, in place or on a copy. -/
+
+theorem step_host (c : Cfg) (w : World) (op : Op) (hp : c.passthrough = false) :
+    (step c w op).1.cur.host = hostStep c w.cur.host op := by
+  rw [two_variable_step c w op hp]
+
+theorem xrun_cons (x : XCfg) (w : World) (op : XOp) (ops : List XOp) :
+    xrun x w (op :: ops) = ((xrun x (xstep x w op).1 ops).1, (xstep x w op).2 :: (xrun x (xstep x w op).1 ops).2) := rfl
+
+/-- the type check of `mutate_attr`, then the plain assignment: nothing else -/
+theorem xwrite_eq (x : XCfg) (w : World) (inplace : Bool) (v : Val) :
+    xwrite x w inplace v = xstep x w (.base (if inplace then .writeAlias v else .cowWithAlias v)) := by
+  cases inplace <;> simp [xwrite, xstep, XCfg.refuses]
+
+/-- the host step of the mixed alphabet: helper calls are operations on the alias — they are not in it -/
+def hostStepX (c : Cfg) (h : Val) : XOp → Val
+  | .base op => hostStep c h op
+  | .helper _ => h
+
+/-- **Every helper on a non-passthrough alias leaves the host tree — hence the target, whatever it
+holds — exactly as it was**, in place or copying, with values, nested keywords or attribute
+transforms, overridden or not, whether it succeeds or raises. -/
+theorem helper_leaves_host (x : XCfg) (w : World) (h : HOp) (hp : x.base.passthrough = false) :
+    (hstep x w h).1.cur.host = w.cur.host := by
+  cases h with
+  | reset i => cases i <;> simp [hstep, step_host _ _ _ hp, hostStep]
+  | write i k =>
+    simp only [hstep]
+    rcases computeValue x w.cur k with ⟨r | v, n⟩
+    · rfl
+    · simp only []
+      rcases protectRead x.base w.cur i k with ⟨_ | e, m⟩
+      · simp only [addWarns, xwrite]
+        split
+        · rfl
+        · cases i <;> simp [step_host _ _ _ hp, hostStep]
+      · rfl
+
+/-- … in particular the target reads as before (same value or same exception) -/
+theorem helper_leaves_target (x : XCfg) (w : World) (h : HOp) (hp : x.base.passthrough = false) :
+    lookup (hstep x w h).1.cur.host x.base.path = lookup w.cur.host x.base.path := by
+  rw [helper_leaves_host x w h hp]
+
+theorem xstep_host (x : XCfg) (w : World) (op : XOp) (hp : x.base.passthrough = false) :
+    (xstep x w op).1.cur.host = hostStepX x.base w.cur.host op := by
+  cases op with
+  | helper h => exact helper_leaves_host x w h hp
+  | base op =>
+    simp only [xstep, hostStepX]
+    split
+    · rename_i hr
+      cases op <;> simp [XCfg.refuses] at hr <;> rfl
+    · exact step_host _ _ _ hp
+
+/-- Non-passthrough alias, mixed sequences of any length: the host evolves by the target-side
+operations alone; reads, assignments, deletions and ALL helper calls on the alias are invisible in it. -/
+theorem x_host_independent (x : XCfg) (hp : x.base.passthrough = false) (ops : List XOp) (w : World) :
+    (xrun x w ops).1.cur.host = ops.foldl (hostStepX x.base) w.cur.host := by
+  induction ops generalizing w with
+  | nil => rfl
+  | cons op ops ih => rw [xrun_cons]; simp only [List.foldl_cons]; rw [ih, xstep_host x w op hp]
+
+/-- an operation on the alias attribute: a base alias operation or any helper call -/
+def isAliasXOp : XOp → Bool
+  | .base op => isOvOp op || (match op with | .readAlias => true | _ => false)
+  | .helper _ => true
+
+theorem x_alias_ops_leave_host (x : XCfg) (hp : x.base.passthrough = false) (ops : List XOp)
+    (hops : ∀ op ∈ ops, isAliasXOp op = true) (w : World) :
+    (xrun x w ops).1.cur.host = w.cur.host := by
+  rw [x_host_independent x hp]
+  induction ops generalizing w with
+  | nil => rfl
+  | cons op ops ih =>
+    have : hostStepX x.base w.cur.host op = w.cur.host := by
+      have h := hops op (by simp)
+      cases op with
+      | helper _ => rfl
+      | base op => cases op <;> simp [isAliasXOp, isOvOp] at h <;> rfl
+    simp only [List.foldl_cons, this]
+    exact ih (fun o ho => hops o (by simp [ho])) w
+
+/-- A helper that gets as far as the assignment IS the plain assignment of the value it computed
+(`instance.alias = v`, on the receiver or on a copy that leaves the receiver behind): every theorem
+about local assignment (`shadow`, `shadow_persists`, `delete_restores`, `passthrough_rt`, …) applies to it. -/
+theorem helper_is_assignment (x : XCfg) (w : World) (i : Bool) (k : HKind) {v : Val} {n m : Nat}
+    (hv : computeValue x w.cur k = (.ok v, n)) (hpr : protectRead x.base w.cur i k = (none, m)) :
+    (hstep x w (.write i k)).1 = (xstep x w (.base (if i then .writeAlias v else .cowWithAlias v))).1
+    ∧ (hstep x w (.write i k)).2.res = (xstep x w (.base (if i then .writeAlias v else .cowWithAlias v))).2.res
+    ∧ (hstep x w (.write i k)).2.warns
+        = (xstep x w (.base (if i then .writeAlias v else .cowWithAlias v))).2.warns + (n + m) * warnsOf x.base := by
+  refine ⟨?_, ?_, ?_⟩ <;> simp [hstep, hv, hpr, addWarns, xwrite_eq]
+
+/-- A helper that fails while it computes the value, or at the second lookup, changes nothing at all. -/
+theorem helper_failure_atomic (x : XCfg) (w : World) (i : Bool) (k : HKind) :
+    (∀ e n, computeValue x w.cur k = (.error e, n) → hstep x w (.write i k) = (w, ⟨.err e, n * warnsOf x.base⟩))
+    ∧ (∀ v n e m, computeValue x w.cur k = (.ok v, n) → protectRead x.base w.cur i k = (some e, m) →
+        hstep x w (.write i k) = (w, ⟨.err e, (n + m) * warnsOf x.base⟩)) := by
+  constructor
+  · intro e n h; simp [hstep, h]
+  · intro v n e m h1 h2; simp [hstep, h1, h2]
+
+/-- whatever a helper does, the instances that existed before are kept; a copying helper that
+succeeds puts the receiver (unchanged) in front of them -/
+theorem hstep_olds (x : XCfg) (w : World) (h : HOp) :
+    (hstep x w h).1.olds = w.olds ∨ (hstep x w h).1.olds = w.cur :: w.olds := by
+  cases h with
+  | reset i => cases i <;> simp only [hstep] <;> exact step_olds _ _ _
+  | write i k =>
+    simp only [hstep]
+    rcases computeValue x w.cur k with ⟨r | v, n⟩
+    · exact Or.inl rfl
+    · simp only []
+      rcases protectRead x.base w.cur i k with ⟨_ | e, m⟩
+      · simp only [addWarns, xwrite]
+        split
+        · exact Or.inl rfl
+        · exact step_olds _ _ _
+      · exact Or.inl rfl
+
+theorem xstep_olds (x : XCfg) (w : World) (op : XOp) :
+    (xstep x w op).1.olds = w.olds ∨ (xstep x w op).1.olds = w.cur :: w.olds := by
+  cases op with
+  | helper h => exact hstep_olds x w h
+  | base op =>
+    simp only [xstep]
+    split
+    · exact Or.inl rfl
+    · exact step_olds _ _ _
+
+/-- `olds_frame` for mixed sequences: earlier instances are never touched, by helper calls either -/
+theorem x_olds_frame (x : XCfg) (ops : List XOp) (w : World) :
+    ∃ new, (xrun x w ops).1.olds = new ++ w.olds := by
+  induction ops generalizing w with
+  | nil => exact ⟨[], rfl⟩
+  | cons op ops ih =>
+    rw [xrun_cons]
+    obtain ⟨new, hn⟩ := ih (xstep x w op).1
+    rcases xstep_olds x w op with h | h
+    · exact ⟨new, by simp only; rw [hn, h]⟩
+    · exact ⟨new ++ [w.cur], by simp only; rw [hn, h]; simp⟩
+
+/-- a passthrough alias never acquires a local override through a helper either -/
+theorem x_passthrough_step_override (x : XCfg) (w : World) (op : XOp) (hp : x.base.passthrough = true) :
+    (xstep x w op).1.cur.override = w.cur.override := by
+  cases op with
+  | base op =>
+    simp only [xstep]
+    split
+    · rfl
+    · exact passthrough_step_override _ _ _ hp
+  | helper h =>
+    cases h with
+    | reset i => cases i <;> simp only [xstep, hstep] <;> exact passthrough_step_override _ _ _ hp
+    | write i k =>
+      simp only [xstep, hstep]
+      rcases computeValue x w.cur k with ⟨r | v, n⟩
+      · rfl
+      · simp only []
+        rcases protectRead x.base w.cur i k with ⟨_ | e, m⟩
+        · simp only [addWarns, xwrite]
+          split
+          · rfl
+          · exact passthrough_step_override _ _ _ hp
+        · rfl
+
+theorem x_passthrough_never_overrides (x : XCfg) (hp : x.base.passthrough = true) (ops : List XOp) (w : World) :
+    (xrun x w ops).1.cur.override = w.cur.override := by
+  induction ops generalizing w with
+  | nil => rfl
+  | cons op ops ih => rw [xrun_cons]; simp only; rw [ih, x_passthrough_step_override x w op hp]
+
+/-- the state after a helper on a non-passthrough alias that computed `v` and passed the type check:
+the host is the receiver's, the local value is `v`, the receiver is left behind by the copying form -/
+theorem helper_success_state (x : XCfg) (w : World) (i : Bool) (k : HKind) {v : Val} {n m : Nat}
+    (hp : x.base.passthrough = false)
+    (hv : computeValue x w.cur k = (.ok v, n)) (hpr : protectRead x.base w.cur i k = (none, m))
+    (hty : x.typeOk v = true) :
+    (hstep x w (.write i k)).1.cur = ⟨w.cur.host, some v⟩
+    ∧ (hstep x w (.write i k)).1.olds = (if i then w.olds else w.cur :: w.olds)
+    ∧ (hstep x w (.write i k)).2.res = .none
+    ∧ aliasGet x.base (hstep x w (.write i k)).1.cur = .val v := by
+  have hc : (x.base.checked && !v.isInt) = false := by
+    simp only [XCfg.typeOk, Bool.and_eq_true, Bool.or_eq_true, Bool.not_eq_true'] at hty
+    rcases hty.1 with h | h <;> simp [h]
+  have hcur : (hstep x w (.write i k)).1.cur = ⟨w.cur.host, some v⟩
+      ∧ (hstep x w (.write i k)).1.olds = (if i then w.olds else w.cur :: w.olds)
+      ∧ (hstep x w (.write i k)).2.res = .none := by
+    cases i <;> simp [hstep, hv, hpr, addWarns, xwrite, hty, step, instSet, hc, aliasSet, hp]
+  refine ⟨hcur.1, hcur.2.1, hcur.2.2, ?_⟩
+  rw [hcur.1]; simp [aliasGet, hp]
+
+/-- **`update_<alias>(**attrs)` on an alias that mirrors its target `t`** (no local value yet; in
+place or copying): the local value becomes `t` with the attributes set, the TARGET IS STILL `t`,
+and deleting the local value brings the live view of the unmodified target back. -/
+theorem update_shadows_nested (x : XCfg) (w : World) (i : Bool) (attrs : Attrs) {t t' : Val}
+    (hp : x.base.passthrough = false) (hno : w.cur.override = none) (htr : x.base.transform = none)
+    (hl : lookup w.cur.host x.base.path = .ok t) (ha : applyAttrs t attrs = .ok t') (hty : x.typeOk t' = true) :
+    (hstep x w (.write i (.updA none attrs))).1.cur = ⟨w.cur.host, some t'⟩
+    ∧ lookup (hstep x w (.write i (.updA none attrs))).1.cur.host x.base.path = .ok t
+    ∧ aliasGet x.base (hstep x w (.write i (.updA none attrs))).1.cur = .val t'
+    ∧ (step x.base (hstep x w (.write i (.updA none attrs))).1 .delAlias).1.cur = ⟨w.cur.host, none⟩
+    ∧ aliasGet x.base ⟨w.cur.host, none⟩ = .val t := by
+  have hg : aliasGet x.base w.cur = .val t := mirrors_plain x.base w.cur (Or.inr hno) htr hl
+  have hv : computeValue x w.cur (.updA none attrs) = (.ok t', 1) := by
+    simp [computeValue, readOld, hg, ha]
+  have hpr : ∃ m, protectRead x.base w.cur i (.updA none attrs) = (none, m) := by
+    cases i <;> simp [protectRead, HKind.protects, readOld, hg]
+  obtain ⟨m, hpr⟩ := hpr
+  obtain ⟨h1, _, _, h4⟩ := helper_success_state x w i _ hp hv hpr hty
+  refine ⟨h1, by rw [h1]; exact hl, h4, ?_, mirrors_plain x.base _ (Or.inr rfl) htr hl⟩
+  simp [step, aliasDelete, hp, h1]
+
+/-- … and the same for `transform_<alias>(**attr_transforms)` -/
+theorem transform_shadows_nested (x : XCfg) (w : World) (i : Bool) (ats : List (String × Xf)) {t t' : Val}
+    (hp : x.base.passthrough = false) (hno : w.cur.override = none) (htr : x.base.transform = none)
+    (hl : lookup w.cur.host x.base.path = .ok t) (ha : applyXfs t ats = .ok t') (hty : x.typeOk t' = true) :
+    (hstep x w (.write i (.trA none ats))).1.cur = ⟨w.cur.host, some t'⟩
+    ∧ lookup (hstep x w (.write i (.trA none ats))).1.cur.host x.base.path = .ok t
+    ∧ aliasGet x.base (hstep x w (.write i (.trA none ats))).1.cur = .val t'
+    ∧ (step x.base (hstep x w (.write i (.trA none ats))).1 .delAlias).1.cur = ⟨w.cur.host, none⟩
+    ∧ aliasGet x.base ⟨w.cur.host, none⟩ = .val t := by
+  have hg : aliasGet x.base w.cur = .val t := mirrors_plain x.base w.cur (Or.inr hno) htr hl
+  have hv : computeValue x w.cur (.trA none ats) = (.ok t', 1) := by
+    simp [computeValue, readOld, hg, ha]
+  have hpr : ∃ m, protectRead x.base w.cur i (.trA none ats) = (none, m) := by
+    cases i <;> simp [protectRead, HKind.protects, readOld, hg]
+  obtain ⟨m, hpr⟩ := hpr
+  obtain ⟨h1, _, _, h4⟩ := helper_success_state x w i _ hp hv hpr hty
+  refine ⟨h1, by rw [h1]; exact hl, h4, ?_, mirrors_plain x.base _ (Or.inr rfl) htr hl⟩
+  simp [step, aliasDelete, hp, h1]
+
+/-- non-vacuity: a nested target `{x = 1}` behind `d["k"]`, `update_al(x=5, _inplace=True)`:
+the alias reads `{x = 5}`, the target still reads `{x = 1}` -/
+example :
+    let x : XCfg := ⟨⟨[.attr "d", .item "k"], false, none, none, false, false, true⟩, some (.obj ["x"] [])⟩
+    let w : World := ⟨⟨.obj ["x"] [("d", .dict [("k", .obj ["x"] [("x", .int 1)])])], none⟩, [], 0⟩
+    (xrun x w [.helper (.write true (.updA none [("x", .int 5)])), .base .readAlias, .base .readTarget,
+               .helper (.reset true), .base .readAlias]).2.map (·.res)
+      = [.none, .val (.obj ["x"] [("x", .int 5)]), .val (.obj ["x"] [("x", .int 1)]), .none,
+         .val (.obj ["x"] [("x", .int 1)])] := by rfl
+/-- … an ill-typed nested keyword raises `TypeError` and changes nothing; the copying transform leaves the receiver behind -/
+example :
+    let x : XCfg := ⟨⟨[.attr "d", .item "k"], false, none, none, false, false, true⟩, some (.obj ["x"] [])⟩
+    let w : World := ⟨⟨.obj ["x"] [("d", .dict [("k", .obj ["x"] [("x", .int 1)])])], none⟩, [], 0⟩
+    (xstep x w (.helper (.write true (.updA none [("x", .str 0)])))) = (w, ⟨.err .typeError, 0⟩)
+    ∧ (xstep x w (.helper (.write false (.trA none [("x", .add 10)])))).1.olds = [w.cur] := by
+  exact ⟨rfl, rfl⟩
+
+/-- A helper on a PASSTHROUGH alias that succeeds forwards the value it computed to the target:
+the new host is `assign host path v`, the target then holds `v`, no override appears. -/
+theorem helper_passthrough_reaches_target (x : XCfg) (w : World) (i : Bool) (k : HKind) {v : Val} {n m : Nat}
+    (hp : x.base.passthrough = true)
+    (hv : computeValue x w.cur k = (.ok v, n)) (hpr : protectRead x.base w.cur i k = (none, m))
+    (hok : (hstep x w (.write i k)).2.res = .none) :
+    assign w.cur.host x.base.path v = .ok (hstep x w (.write i k)).1.cur.host
+    ∧ lookup (hstep x w (.write i k)).1.cur.host x.base.path = .ok v
+    ∧ (hstep x w (.write i k)).1.cur.override = w.cur.override := by
+  have key : ∀ s', aliasSet x.base w.cur v = .ok s' →
+      assign w.cur.host x.base.path v = .ok s'.host ∧ lookup s'.host x.base.path = .ok v ∧ s'.override = w.cur.override := by
+    intro s' hs
+    obtain ⟨h1, h2⟩ := passthrough_set_inv x.base w.cur s' v hp hs
+    exact ⟨h1, lookup_assign_same h1, h2⟩
+  simp only [hstep, hv, hpr, addWarns, xwrite] at hok ⊢
+  cases ht : x.typeOk v
+  · simp [ht] at hok
+  · simp only [ht, Bool.not_true, Bool.false_eq_true, if_false] at hok ⊢
+    cases i
+    · simp only [Bool.false_eq_true, if_false, step, instSet] at hok ⊢
+      cases hc : (x.base.checked && !v.isInt)
+      · simp only [hc, Bool.false_eq_true, if_false] at hok ⊢
+        cases hs : aliasSet x.base w.cur v with
+        | error e => simp [hs] at hok
+        | ok s' => simpa [hs] using key s' hs
+      · simp [hc] at hok
+    · simp only [if_true, step, instSet] at hok ⊢
+      cases hc : (x.base.checked && !v.isInt)
+      · simp only [hc, Bool.false_eq_true, if_false] at hok ⊢
+        cases hs : aliasSet x.base w.cur v with
+        | error e => simp [hs] at hok
+        | ok s' => simpa [hs] using key s' hs
+      · simp [hc] at hok
+
+/-! ### DeprecatedAlias through the helpers: one warning per descriptor call, nothing else -/
+
+def asDeprecatedX (x : XCfg) (b : Bool) : XCfg := { x with base := asDeprecated x.base b }
+
+/-- descriptor calls of a helper: the lookups spent on computing the value (`update_` without a
+replacement value and `transform_` read the alias; the copying forms look it up once more; a lookup that
+ends in `AttributeError` on a spec class counts twice, one that raises inside the lazy proxy twice), plus
+the `__set__` when the value passes the type check; `reset_` is one `__delete__` -/
+def helperCalls (x : XCfg) (w : World) : HOp → Nat
+  | .reset _ => 1
+  | .write i k =>
+    match computeValue x w.cur k with
+    | (.error _, n) => n
+    | (.ok v, n) =>
+      match protectRead x.base w.cur i k with
+      | (some _, m) => n + m
+      | (none, m) => n + m + (if x.typeOk v then 1 else 0)
+
+def xCalls (x : XCfg) (w : World) : XOp → Nat
+  | .base op => if x.refuses op then 0 else descriptorCalls x.base w op
+  | .helper h => helperCalls x w h
+
+theorem x_deprecated_step (x : XCfg) (w : World) (op : XOp) :
+    (xstep (asDeprecatedX x true) w op).1 = (xstep (asDeprecatedX x false) w op).1
+    ∧ (xstep (asDeprecatedX x true) w op).2.res = (xstep (asDeprecatedX x false) w op).2.res
+    ∧ (xstep (asDeprecatedX x true) w op).2.warns = xCalls (asDeprecatedX x false) w op
+    ∧ (xstep (asDeprecatedX x false) w op).2.warns = 0 := by
+  have hbase : ∀ b, (asDeprecatedX x b).base = asDeprecated x.base b := fun _ => rfl
+  have href : ∀ b o, (asDeprecatedX x b).refuses o = x.refuses o := by
+    intro b o; cases o <;> rfl
+  have hty : ∀ b v, (asDeprecatedX x b).typeOk v = x.typeOk v := fun _ _ => rfl
+  have hcv : ∀ b k, computeValue (asDeprecatedX x b) w.cur k = computeValue x w.cur k := by
+    intro b k; cases k <;> rfl
+  have hprr : ∀ b i k, protectRead (asDeprecated x.base b) w.cur i k = protectRead x.base w.cur i k := fun _ _ _ => rfl
+  have hw1 : warnsOf (asDeprecated x.base true) = 1 := rfl
+  have hw0 : warnsOf (asDeprecated x.base false) = 0 := rfl
+  cases op with
+  | base o =>
+    simp only [xstep, xCalls, href, hbase]
+    split
+    · exact ⟨rfl, rfl, rfl, rfl⟩
+    · exact deprecated_step x.base w o
+  | helper h =>
+    cases h with
+    | reset i =>
+      cases i
+      · simpa [xstep, hstep, xCalls, helperCalls, hbase, descriptorCalls] using deprecated_step x.base w .cowResetAlias
+      · simpa [xstep, hstep, xCalls, helperCalls, hbase, descriptorCalls] using deprecated_step x.base w .delAlias
+    | write i k =>
+      simp only [xstep, hstep, xCalls, helperCalls, hcv, hbase, hprr, hw1, hw0]
+      rcases computeValue x w.cur k with ⟨e | v, n⟩
+      · simp
+      · simp only []
+        rcases protectRead x.base w.cur i k with ⟨_ | e, m⟩
+        · simp only [addWarns, xwrite, hty, hbase]
+          cases ht : x.typeOk v
+          · simp
+          · have hc : (x.base.checked && !v.isInt) = false := by
+              simp only [XCfg.typeOk, Bool.and_eq_true, Bool.or_eq_true, Bool.not_eq_true'] at ht
+              rcases ht.1 with h | h <;> simp [h]
+            cases i
+            · have := deprecated_step x.base w (.cowWithAlias v)
+              simp only [descriptorCalls] at this
+              have hcc : (asDeprecated x.base false).checked = x.base.checked := rfl
+              rw [hcc, hc] at this
+              obtain ⟨a1, a2, a3, a4⟩ := this
+              simp [a1, a2, a3, a4]; omega
+            · have := deprecated_step x.base w (.writeAlias v)
+              simp only [descriptorCalls] at this
+              have hcc : (asDeprecated x.base false).checked = x.base.checked := rfl
+              rw [hcc, hc] at this
+              obtain ⟨a1, a2, a3, a4⟩ := this
+              simp [a1, a2, a3, a4]; omega
+        · simp
+
+def xCallsAlong (x : XCfg) : World → List XOp → List Nat
+  | _, [] => []
+  | w, op :: ops => xCalls x w op :: xCallsAlong x (xstep x w op).1 ops
+
+/-- `deprecated_same` for mixed sequences: through every helper call too, `DeprecatedAlias` and `Alias`
+go through the same states and results; the deprecated one warns once per descriptor call, the plain one never. -/
+theorem x_deprecated_same (x : XCfg) (ops : List XOp) (w : World) :
+    (xrun (asDeprecatedX x true) w ops).1 = (xrun (asDeprecatedX x false) w ops).1
+    ∧ (xrun (asDeprecatedX x true) w ops).2.map (·.res) = (xrun (asDeprecatedX x false) w ops).2.map (·.res)
+    ∧ (xrun (asDeprecatedX x true) w ops).2.map (·.warns) = xCallsAlong (asDeprecatedX x false) w ops
+    ∧ (xrun (asDeprecatedX x false) w ops).2.map (·.warns) = ops.map fun _ => 0 := by
+  induction ops generalizing w with
+  | nil => exact ⟨rfl, rfl, rfl, rfl⟩
+  | cons op ops ih =>
+    obtain ⟨h1, h2, h3, h4⟩ := x_deprecated_step x w op
+    simp only [xrun_cons, List.map_cons, xCallsAlong]
+    rw [h1]
+    obtain ⟨i1, i2, i3, i4⟩ := ih (xstep (asDeprecatedX x false) w op).1
+    exact ⟨i1, by rw [h2, i2], by rw [h3, i3], by rw [h4, i4]⟩
+
+example :
+    let x : XCfg := ⟨⟨[.attr "d", .item "k"], false, none, none, true, false, true⟩, some (.obj ["x"] [])⟩
+    let w : World := ⟨⟨.obj ["x"] [("d", .dict [("k", .obj ["x"] [("x", .int 1)])])], none⟩, [], 0⟩
+    (xrun x w [.helper (.write false (.updA none [("x", .int 5)])), .helper (.write true (.updA none [("x", .int 6)])),
+               .helper (.write true (.withA none [("x", .int 7)])), .helper (.reset true)]).2.map (·.warns) = [3, 2, 1, 1] := by rfl
+
 end SpecVerif.Props.C18
